@@ -335,6 +335,8 @@ func runC11(p *core.Program, r *core.Report) {
 		}
 	}
 
+	c11R6(p, r)
+	c11R7(p, r)
 	// R5 generic receiver names
 	r.Floor("R5", 1)
 	nf := p.FuncByName("pkg/namer", "(*rawNamer).Name")
@@ -349,6 +351,149 @@ func runC11(p *core.Program, r *core.Report) {
 		r.Check(hasAt && hasTP && strings.Contains(set, "[") && strings.Contains(set, "]") && strings.Contains(set, ","), "R5", nf, "generic type names carry their type-parameter list", nf.Node().Pos(),
 			"[ p.At(i) , ... ] is appended for named types with TypeParams()", "the namer no longer appends the `[T, ...]` parameter list to generic type names: generated receivers `func (v *G) ...` do not compile")
 	}
+}
+
+// c11R6: every name the namer hands out went through the argument rewriter
+// (processName): no return of the raw Name()/String() of the reference except
+// the empty-name fallback.
+func c11R6(p *core.Program, r *core.Report) {
+	const rule = "R6"
+	r.Floor(rule, 2)
+	nf := p.FuncByName("pkg/namer", "(*rawNamer).Name")
+	pn := p.FuncByName("pkg/namer", "(*rawNamer).processName")
+	if nf == nil || pn == nil {
+		r.Anchor(rule, "pkg/namer.(*rawNamer).Name / processName")
+		return
+	}
+	info := nf.Info()
+	g := graph(nf)
+	// the builder that received processName(...)
+	var builder *types.Var
+	var pcall *ast.CallExpr
+	for _, c := range core.Calls(nf.Body, true) {
+		if core.CalleeFunc(info, c) != pn.Obj() {
+			continue
+		}
+		pcall = c
+		path := core.PathTo(nf.Body, c)
+		for k := len(path) - 1; k >= 0; k-- {
+			if wc, ok := path[k].(*ast.CallExpr); ok && wc != c && strings.HasSuffix(core.CalleeName(info, wc), ").WriteString") {
+				builder = core.VarOf(info, recvOf(wc))
+			}
+		}
+	}
+	if builder == nil || pcall == nil {
+		r.Bad(rule, nf, "the namer rewrites the reference's name through processName", nf.Node().Pos(), "no `tn.WriteString(n.processName(typeName.Name()))`: type arguments embedded in a generic instantiation's name are neither shortened nor imported")
+		return
+	}
+	// processName receives the reference's own name
+	okArg := false
+	if len(pcall.Args) == 1 {
+		if nc, ok := ast.Unparen(pcall.Args[0]).(*ast.CallExpr); ok && strings.HasSuffix(core.CalleeName(info, nc), ").Name") {
+			if v := core.VarOf(info, recvOf(nc)); v != nil && isParamOf(nf, v) {
+				okArg = true
+			}
+		}
+	}
+	r.Check(okArg, rule, nf, "processName receives the reference's own name", pcall.Pos(), "n.processName(typeName.Name())", "processName is not applied to the Name() of the reference being rendered")
+	pp := g.PointOf(pcall)
+	for _, rp := range g.Points(func(n ast.Node) bool { _, ok := n.(*ast.ReturnStmt); return ok }) {
+		ret := rp.Node().(*ast.ReturnStmt)
+		if len(ret.Results) != 1 {
+			continue
+		}
+		e := ret.Results[0]
+		construct := "namer result `" + core.ExprStr(e) + "`"
+		// cache hit: a previously computed name
+		if v := core.VarOf(info, e); v != nil {
+			if d, ok := core.SingleDef(info, nf.Body, v); ok && d.Index == 0 {
+				if ix, ok := ast.Unparen(d.Rhs).(*ast.IndexExpr); ok {
+					if fld := core.FieldOf(info, ix.X); fld != nil && fld.Name() == "Names" {
+						r.OK(rule, nf, construct, ret.Pos(), "memoised result of an earlier call")
+						continue
+					}
+				}
+			}
+		}
+		uses := core.Mentions(info, e, builder) && g.Dominates(pp, rp)
+		if !uses {
+			// the only fallback: the reference's String() when the rewritten name is empty
+			fallback := false
+			for _, fct := range g.FactsAt(rp) {
+				x, op, c, ok := cmpConst(info, fct.Cond)
+				if ok && c == 0 && ((op == token.NEQ && !fct.Val) || (op == token.EQL && fct.Val)) {
+					if lc, ok := ast.Unparen(x).(*ast.CallExpr); ok && strings.HasSuffix(core.CalleeName(info, lc), ").Len") && core.VarOf(info, recvOf(lc)) == builder {
+						fallback = true
+					}
+				}
+			}
+			r.Check(fallback && g.Dominates(pp, rp), rule, nf, construct, ret.Pos(), "fallback for an empty rewritten name", "the namer returns a name that did not go through processName (raw Name()/String() of the reference): for a generic instantiation the embedded type arguments keep their full package paths (does not parse) and their imports are not registered")
+			continue
+		}
+		r.OK(rule, nf, construct, ret.Pos(), "built from the builder that received processName(...)")
+	}
+}
+
+// c11R7: the printers keep no mutable state on the Dumper: TypeLit / ValueLit
+// are recursive, so a buffer or counter stored on the receiver is clobbered by
+// the nested call.
+func c11R7(p *core.Program, r *core.Report) {
+	const rule = "R7"
+	r.Floor(rule, 1)
+	n := 0
+	for _, f := range p.Funcs() {
+		root := f.Root()
+		if core.RelPkg(f.Pkg.PkgPath) != "pkg/gengo/internal" || root.Decl == nil || root.Decl.Recv == nil {
+			continue
+		}
+		if core.NamedTypeName(f.Info().TypeOf(root.Decl.Recv.List[0].Type)) != core.G("pkg/gengo/internal.Dumper") {
+			continue
+		}
+		n++
+		info := f.Info()
+		recv := recvIdent(root)
+		for _, w := range nonLocalWrites(f) {
+			if core.Mentions(info, w, info.ObjectOf(recv.(*ast.Ident))) {
+				r.Bad(rule, f, "printer writes its receiver: "+core.ExprStr(w), w.Pos(), "state stored on the Dumper is shared by the recursive calls of the printer (and by every snippet rendered with it)")
+			}
+		}
+		ast.Inspect(f.Body, func(nd ast.Node) bool {
+			if u, isU := nd.(*ast.UnaryExpr); isU && u.Op == token.AND {
+				if fld := core.FieldOf(info, u.X); fld != nil {
+					if sx, isSel := ast.Unparen(u.X).(*ast.SelectorExpr); isSel && core.SameRef(info, sx.X, recv) {
+						r.Bad(rule, f, "printer takes the address of receiver field "+fld.Name(), u.Pos(), "`"+core.ExprStr(u)+"` hands out storage kept on the Dumper (a reused scratch buffer): the recursive call for a nested type or value resets or appends to the same storage, so the outer literal is corrupted (e.g. an anonymous struct nested in an anonymous struct)")
+					}
+				}
+			}
+			c, ok := nd.(*ast.CallExpr)
+			if !ok {
+				return true
+			}
+			sel, ok := ast.Unparen(c.Fun).(*ast.SelectorExpr)
+			if !ok {
+				return true
+			}
+			fld := core.FieldOf(info, sel.X)
+			if fld == nil || !core.SameRef(info, sel.X.(*ast.SelectorExpr).X, recv) {
+				return true
+			}
+			fn, _ := info.ObjectOf(sel.Sel).(*types.Func)
+			if fn == nil {
+				return true
+			}
+			sig := fn.Type().(*types.Signature)
+			if sig.Recv() == nil {
+				return true
+			}
+			_, ptrRecv := sig.Recv().Type().(*types.Pointer)
+			_, isIface := fld.Type().Underlying().(*types.Interface)
+			if ptrRecv && !isIface {
+				r.Bad(rule, f, "printer mutates receiver field "+fld.Name()+" through "+fn.Name(), c.Pos(), "`"+core.ExprStr(c)+"` changes a buffer/counter kept on the Dumper: the recursive call for a nested type or value resets or appends to the same storage, so the outer literal is corrupted (e.g. an anonymous struct nested in an anonymous struct)")
+			}
+			return true
+		})
+	}
+	r.OK(rule, nil, "Dumper methods keep no mutable state on the receiver", token.NoPos, itoa(int64(n))+" method bodies and closures scanned")
 }
 
 // methodOn: e is a call x.M() on variable v; returns M.
